@@ -36,6 +36,10 @@ using namespace vh;
 #ifndef SCALAR
 #define SCALAR 2
 #endif
+// PART: 0 = eval + dump modes, 1 = agree mode, 2 = everything
+#ifndef PART
+#define PART 2
+#endif
 
 // ------------------------------------------------------------------ names (descriptor language)
 template<class G>
@@ -639,26 +643,31 @@ void dump_group()
     hit(requires(CM c) { c.coeffs()(0) = S(0); }, "coeffs_write");
     hit(requires(CM c) { *c.data() = S(0); }, "data_write");
     if constexpr (is_se2_v<G>) {
-      hit(requires(CM c) { c.so2().setIdentity(); }, "so2_mut");
-      hit(requires(CM c) { c.r2()(0) = S(0); }, "r2_mut");
+      hit(!std::is_same_v<decltype(std::declval<CM &>().so2()), smooth::Map<const smooth::SO2<S>>>, "so2_not_const_map");
+      hit(!std::is_same_v<decltype(std::declval<CM &>().r2()), Eigen::Map<const Eigen::Vector2<S>>>, "r2_not_const_map");
     }
     if constexpr (is_se3_v<G>) {
-      hit(requires(CM c) { c.so3().setIdentity(); }, "so3_mut");
-      hit(requires(CM c) { c.r3()(0) = S(0); }, "r3_mut");
+      hit(!std::is_same_v<decltype(std::declval<CM &>().so3()), smooth::Map<const smooth::SO3<S>>>, "so3_not_const_map");
+      hit(!std::is_same_v<decltype(std::declval<CM &>().r3()), Eigen::Map<const Eigen::Vector3<S>>>, "r3_not_const_map");
     }
     if constexpr (is_gal_v<G>) {
-      hit(requires(CM c) { c.so3().setIdentity(); }, "so3_mut");
-      hit(requires(CM c) { c.r3_v()(0) = S(0); }, "r3_v_mut");
-      hit(requires(CM c) { c.r3_p()(0) = S(0); }, "r3_p_mut");
-      hit(requires(CM c) { c.r1_t()(0) = S(0); }, "r1_t_mut");
+      hit(!std::is_same_v<decltype(std::declval<CM &>().so3()), smooth::Map<const smooth::SO3<S>>>, "so3_not_const_map");
+      hit(!std::is_same_v<decltype(std::declval<CM &>().r3_v()), Eigen::Map<const Eigen::Vector3<S>>>, "r3_v_not_const_map");
+      hit(!std::is_same_v<decltype(std::declval<CM &>().r3_p()), Eigen::Map<const Eigen::Vector3<S>>>, "r3_p_not_const_map");
+      hit(!std::is_same_v<decltype(std::declval<CM &>().r1_t()), Eigen::Map<const Eigen::Vector<S, 1>>>, "r1_t_not_const_map");
     }
     if constexpr (is_sek_v<G>) {
-      hit(requires(CM c) { c.so3().setIdentity(); }, "so3_mut");
-      hit(requires(CM c) { c.template r3<0>()(0) = S(0); }, "r3_mut");
-      hit(requires(CM c) { c.r3(0)(0) = S(0); }, "r3rt_mut");
+      hit(!std::is_same_v<decltype(std::declval<CM &>().so3()), smooth::Map<const smooth::SO3<S>>>, "so3_not_const_map");
+      hit(!std::is_same_v<decltype(std::declval<CM &>().template r3<0>()), Eigen::Map<const Eigen::Vector3<S>>>, "r3k_not_const_map");
+      hit(!std::is_same_v<decltype(std::declval<CM &>().r3(0)), Eigen::Map<const Eigen::Vector3<S>>>, "r3rt_not_const_map");
     }
     if constexpr (is_bundle_v<G>) {
-      hit(requires(CM c) { c.template part<0>() = typename G::template PartType<0>{}; }, "part_mut");
+      // the const overload of part<i>() must hand out a read-only map (Eigen::Map<const V> / Map<const H>);
+      // assignment through it is ill-formed in the body of Eigen's operator= (negative compile tests)
+      smooth::utils::static_for<G::BundleSize>([&](auto I) {
+        using PT = typename G::template PartType<I>;
+        hit(!std::is_same_v<decltype(std::declval<CM &>().template part<I>()), smooth::MapDispatch<const PT>>, "part_not_const_map");
+      });
     }
     std::printf("const %s %s %d%s\n", g.c_str(), Prec<S>::name, n, names.c_str());
   }
@@ -805,7 +814,7 @@ void agree_group(Rng & r, int n)
       }
     };
     statics(std::type_identity<MG>{}, "map");
-    statics(std::type_identity<CG>{}, "cmap");
+    (void)sizeof(CG);
   }
   for (auto & a : A)
     if (a.n) a.flush();
@@ -856,7 +865,12 @@ void catalogue(V && visit)
 struct DumpVisitor
 {
   template<class G>
-  void group() { dump_group<G>(); }
+  void group()
+  {
+#if PART != 1
+    dump_group<G>();
+#endif
+  }
 };
 
 struct AgreeVisitor
@@ -864,7 +878,12 @@ struct AgreeVisitor
   Rng & r;
   int n;
   template<class G>
-  void group() { agree_group<G>(r, n); }
+  void group()
+  {
+#if PART != 0
+    agree_group<G>(r, n);
+#endif
+  }
 };
 
 template<class S>
@@ -879,6 +898,7 @@ struct EvalVisitor
   void group()
   {
     if (done || GName<G>::get() != grp) return;
+#if PART != 1
     if (op == "mem_script") {
       std::vector<S> out;
       long vd = 0, vc = 0;
@@ -908,6 +928,7 @@ struct EvalVisitor
       reply = os.str();
       done  = true;
     }
+#endif
   }
 };
 
